@@ -32,16 +32,19 @@ def classify(q, ref, obs, input_value=None, extra=None):
 
 
 def check(col, q, input_value=None, extra=None):
-    if "cmut" in q:
-        # 'cmut' changes a variable VALUE in place through context.vars (it exists for C10): whether such a change is carried to the
-        # right is not specified by C01 (the library carries it for volatile pipelines only) - left out of the comparison
-        return None, None
     ref = M.Sem(q, input_value=input_value, extra=extra)
     obs = M.run(q, input_value=input_value, extra=extra)
     col.evaluations += 1
     if ref.ok:
         col.nontrivial.add(repr(M._simple(ref.value)))
-    d = M.outcome_diff(ref, obs)
+    fields = ("value", "vars", "last_command", "filename", "extension")
+    if "cmut" in q:
+        # 'cmut' changes a variable VALUE in place through context.vars (it exists for C10).  Whether such a change is visible at the
+        # end / to the right is not pinned down by C01 (the library carries it in volatile pipelines only): the final vars are not
+        # compared, and the value only when nothing right of cmut can read the mutated variable 'lv'
+        tail = q[q.index("cmut"):]
+        fields = tuple(f for f in fields if f != "vars" and not (f == "value" and ("lv" in tail or "appendvar" in tail)))
+    d = M.outcome_diff(ref, obs, fields)
     if d:
         w = dict(query=q, differences=[dict(field=a, expected=b, observed=c) for a, b, c in d])
         if input_value is not None:
